@@ -1,5 +1,7 @@
 import RsomeV.Drv.LpDual
 import RsomeV.Drv.ConeDual
+import RsomeV.Drv.Robust
+import RsomeV.Drv.Partition
 open Lean
 namespace RsomeV.Drv
 /-- every operation of the line protocol -/
@@ -7,5 +9,11 @@ def dispatch (op : String) (j : Json) : Except String Json :=
   match op with
   | "lp_dual" => opLpDual j
   | "conic_dual" => opConicDual j
+  | "le_to_rc" => opLeToRc j
+  | "evt_seq" => opEvtSeq j
+  | "comb_set" => opCombSet j
+  | "rule_cols" => opRuleCols j
+  | "aff_seq" => opAffSeq j
+  | "rule_lin" => opRuleLin j
   | _ => throw s!"unknown op {op}"
 end RsomeV.Drv
